@@ -1076,7 +1076,7 @@ func (ctx *RenderContext) EvaluateExpression(node Node) (interface{}, error) {
 			return 0, nil
 		case "-":
 			if num, ok := ctx.toNumber(operand); ok {
-				return -num, nil
+				return -num + 0, nil // adding zero turns -0 into 0
 			}
 			return 0, nil
 		default:
@@ -1444,7 +1444,7 @@ func (ctx *RenderContext) evaluateBinaryOp(operator string, left, right interfac
 	case "*":
 		if lNum, lok := ctx.toNumber(left); lok {
 			if rNum, rok := ctx.toNumber(right); rok {
-				return lNum * rNum, nil
+				return lNum*rNum + 0, nil // adding zero turns -0 into 0
 			}
 		}
 
@@ -1465,7 +1465,7 @@ func (ctx *RenderContext) evaluateBinaryOp(operator string, left, right interfac
 				if rNum == 0 {
 					return nil, errors.New("modulo by zero")
 				}
-				return math.Mod(lNum, rNum), nil
+				return math.Mod(lNum, rNum) + 0, nil // adding zero turns -0 into 0
 			}
 		}
 
